@@ -17,6 +17,7 @@ import (
 	"github.com/ThreeDotsLabs/watermill/message"
 	"github.com/ThreeDotsLabs/watermill/pubsub/gochannel"
 	"github.com/ThreeDotsLabs/watermill/verifharness/lib"
+	pkgerrors "github.com/pkg/errors"
 	"pgregory.net/rapid"
 )
 
@@ -47,18 +48,22 @@ func (s callerSpec) handlerErr() error {
 		return fmt.Errorf("%s: %w", s.Err, context.Canceled)
 	case 2:
 		return fmt.Errorf("%s: %w", s.Err, context.DeadlineExceeded)
+	case 3: // annotated the pkg/errors way: the reply carries the handler's error text, i.e. all of it
+		return pkgerrors.Wrap(stderrors.New(s.Err), "cannot ship order")
+	case 4:
+		return pkgerrors.WithMessage(pkgerrors.Wrapf(stderrors.New(s.Err), "step %d", 2), "outer")
 	}
 	return stderrors.New(s.Err)
 }
 
 type callerSpec struct {
-	Wraps int // 0 plain error, 1 wraps context.Canceled, 2 wraps context.DeadlineExceeded
-	Behav int // 0 drain, 1 read one then cancel late, 2 never read then cancel, 3 cancel before the reply, 4 timeout (handler held: no reply before it), 5 SendWithReply, 6 timeout while the replies sit unread, 7 drain, but only after every reply has been produced
+	Wraps int // 0 plain error, 1 wraps context.Canceled, 2 wraps context.DeadlineExceeded, 3-4 pkg/errors annotations around the error
+	Behav int // 0 drain, 1 read one then cancel late, 2 never read then cancel, 3 cancel before the reply, 4 timeout (handler held: no reply before it), 5 SendWithReply, 6 timeout while the replies sit unread, 7 drain, but only after every reply has been produced, 8 the caller's context has ended before the call already
 	Fails int
 	Err   string
 }
 
-var behavNames = []string{"drain", "read-one-cancel-late", "never-read", "cancel-before-reply", "timeout", "SendWithReply", "timeout-with-unread-replies", "drain-late"}
+var behavNames = []string{"drain", "read-one-cancel-late", "never-read", "cancel-before-reply", "timeout", "SendWithReply", "timeout-with-unread-replies", "drain-late", "context-ended-before-the-call"}
 
 type cmdDelivery struct {
 	cmdID     string
@@ -156,16 +161,16 @@ func rrCase[R any](t *rapid.T, withResult bool) {
 		sustained := timeout != nil && *timeout > 0 && *timeout < time.Hour && !noHook && rapid.IntRange(0, 7).Draw(t, "sustainedForeignTraffic") == 0
 		specs := make([]callerSpec, nCallers)
 		for i := range specs {
-			b := rapid.SampledFrom([]int{0, 0, 1, 1, 2, 2, 3, 5, 7, 7}).Draw(t, "behaviour")
+			b := rapid.SampledFrom([]int{0, 0, 1, 1, 2, 2, 3, 5, 7, 7, 8}).Draw(t, "behaviour")
 			if timeout != nil && !farTimeout {
-				b = rapid.SampledFrom([]int{4, 4, 3, 0, 6, 6}).Draw(t, "behaviourWithTimeout")
+				b = rapid.SampledFrom([]int{4, 4, 3, 0, 6, 6, 8}).Draw(t, "behaviourWithTimeout")
 				if b == 0 {
 					b = 5
 				}
 			}
 			specs[i] = callerSpec{Behav: b, Fails: rapid.IntRange(0, 2).Draw(t, "failingAttempts"),
 				Err:   rapid.SampledFrom([]string{"boom", "", "é\nx", "other error", "disk is 100% full %s"}).Draw(t, "errText"),
-				Wraps: rapid.SampledFrom([]int{0, 0, 1, 2}).Draw(t, "errWraps")}
+				Wraps: rapid.SampledFrom([]int{0, 0, 1, 2, 3, 4}).Draw(t, "errWraps")}
 		}
 		w := &world{deliv: map[string][]*cmdDelivery{}, finished: map[string]int{}, attempts: map[string]int{}, published: map[string]int{}, gates: map[string]chan struct{}{}}
 		gc := gochannel.NewGoChannel(gochannel.Config{}, watermill.NopLogger{})
@@ -419,6 +424,18 @@ func rrCase[R any](t *rapid.T, withResult bool) {
 					var cancelFar context.CancelFunc
 					callerCtx, cancelFar = context.WithTimeout(context.Background(), time.Hour)
 					defer cancelFar()
+				}
+				if s.Behav == 8 {
+					// a caller that arrives with a context that is over already (cancelled, or its deadline passed): whatever
+					// was started for the request is finished again - channel closed, hook run once - as for any ended context
+					var cancelEnded context.CancelFunc
+					if i%2 == 0 {
+						callerCtx, cancelEnded = context.WithCancel(callerCtx)
+						cancelEnded()
+					} else {
+						callerCtx, cancelEnded = context.WithDeadline(callerCtx, time.Now().Add(-time.Second))
+						defer cancelEnded()
+					}
 				}
 				ch, cancel, err := requestreply.SendWithReplies[R](callerCtx, bus, backend, &Cmd{ID: id})
 				if err != nil {
